@@ -1,21 +1,21 @@
 SPECIFICATION Spec
 CONSTANTS
-  Tree = {0, 1, 2, 9}
-  Relays = {1}
-  NoMc = {2}
+  Tree = {0, 1, 9}
+  Relays = {}
+  NoMc = {}
   Types = {1, 65}
-  Lens = {1}
+  Lens = {1, 3}
   FragLen = 1
   MaxWrites = 2
   MaxLoss = 1
   Concurrent = FALSE
-  Redeliver = TRUE
+  Redeliver = FALSE
   FreeTimeout = TRUE
-INVARIANT C05_AtMostOnce
 INVARIANT C13_WaitOnlyIfNeeded
 INVARIANT C13_TrueOnlyIfArrived
 INVARIANT C13_AckOnce
 INVARIANT C13_AckOnlyIfOwed
+INVARIANT C05_AtMostOnce
 INVARIANT C14_ExactlyLevel
 PROPERTY NoEarlyFail
 CHECK_DEADLOCK FALSE
